@@ -88,7 +88,34 @@ def strategy(tier):
 
 
 def _prefixes(fog):
-    return {tuple(int(x) for x in p) for p in fog._unexplored_prefixes}
+    """The set of unexplored prefixes: read from the state the property is anchored in, or -
+    if a fog does not have that attribute (another internal representation) - enumerated
+    through the public nearest_right() alone, left to right."""
+    try:
+        raw = fog._unexplored_prefixes
+    except AttributeError:
+        return _prefixes_by_queries(fog)
+    return {tuple(int(x) for x in p) for p in raw}
+
+
+def _prefixes_by_queries(fog):
+    out, key = set(), ()
+    for _ in range(100000):
+        try:
+            p = tuple(int(x) for x in fog.nearest_right(key))
+        except (PerfectVisibility, FullDirectionalVisibility):
+            return out
+        if p in out:
+            return out  # nothing new to the right
+        out.add(p)
+        nxt = list(p)
+        while nxt and nxt[-1] == 15:
+            nxt.pop()
+        if not nxt:
+            return out  # p covers everything up to the right edge
+        nxt[-1] += 1
+        key = tuple(nxt)
+    return out
 
 
 def _resolve_sel(sel, members):
